@@ -201,12 +201,8 @@ Definition alloc_child (s : fsys) (parent : nat) (name : str) (n : node) (bump_i
       f_last_id := if bump_id then f_last_id s + 1 else f_last_id s; f_vols := f_vols s |}, c).
 
 (* file_remove_privs: a write or truncation by a user without CAP_FSETID clears the set-user-id bit, and the
-   set-group-id bit when the group-execute bit is set *)
-Definition drop_privs (u : user) (m : meta) : meta :=
-  if us_admin u then m
-  else
-    let a := N.ldiff (m_mode m) MODE_SETUID in
-    {| m_mode := if has (m_mode m) 8 then N.ldiff a MODE_SETGID else a; m_uid := m_uid m; m_gid := m_gid m |}.
+   set-group-id bit when the group-execute bit is set or the user is not a member of the file's group
+   (setattr_should_drop_suidgid): [drop_privs] / [drop_setid], defined in MemFS.v *)
 
 (* ---- system calls -------------------------------------------------------------------- *)
 (* mkdir(2): mode & 01777 (sticky allowed, set-id bits dropped) *)
@@ -505,9 +501,8 @@ Definition k_chown (follow : bool) (s : fsys) (sv : sview) (p : str) (uid gid : 
           if negb ok then (s, SErr EPERM)
           else
             let isdir := match n with NDir _ _ => true | _ => false end in
-            let mode1 := if isdir then m_mode m
-                         else let a := N.ldiff (m_mode m) MODE_SETUID in
-                              if has (m_mode m) 8 then N.ldiff a MODE_SETGID else a in
+            (* chown_common: ATTR_KILL_SUID | setattr_should_drop_sgid for everything but a directory *)
+            let mode1 := if isdir then m_mode m else m_mode (drop_setid u m) in
             (with_heap s (upd (f_heap s) c (set_meta n {| m_mode := mode1; m_uid := nuid; m_gid := ngid |})), SOk)
       | None => (s, SErr EFUEL)
       end
